@@ -641,6 +641,27 @@ def opProgS (cfg : Cfg) (toks : List String) : Option (Prog String) :=
     (parseKey k).map (fun key => do
       let r ← find cfg (parsePath c) key
       pure (match r with | .ok none => "ok none" | .ok (some _) => "ok meta" | .error e => errStr e))
+  | ["list", c] => some (do let _ ← ls cfg (parsePath c); pure "ok")
+  | [op, _, c, k, p] =>
+    -- extractions: result class only (the destination lies outside the cache, which is what `faultset` compares)
+    let cache := parsePath c
+    let dest := parsePath p
+    let byKey (checked : Bool) (how : Extract) : Option (Prog String) :=
+      (parseKey k).map (fun key => do let r ← extract cfg checked how cache key dest; pure (cls r))
+    let byHash (checked : Bool) (how : Extract) : Option (Prog String) :=
+      (parseSriTok k).map (fun sri => do
+        let r ← (if checked then extractHash cfg how cache sri dest else extractUnchecked how cache sri dest)
+        pure (cls r))
+    match op with
+    | "copy" => byKey true .copy
+    | "copy_unchecked" => byKey false .copy
+    | "copy_hash" => byHash true .copy
+    | "copy_hash_unchecked" => byHash false .copy
+    | "hard_link" => byKey true .hardLink
+    | "hard_link_unchecked" => byKey false .hardLink
+    | "hard_link_hash" => byHash true .hardLink
+    | "hard_link_hash_unchecked" => byHash false .hardLink
+    | _ => none
   | _ => none
 
 /-- `faultset <op …>`: every outcome the model allows for the op when exactly one of its calls
